@@ -206,6 +206,8 @@ inductive WCmd
   | run (u : User) (c : Cmd) (crash : Option Nat)
   /-- the cache file of (user, stack, flavor) is deleted -/
   | rmCache (u : User) (s : Nat) (f : Flav)
+  /-- `eups admin clearCache`: every cache file of the user, for every stack, goes -/
+  | clearCache (u : User)
   deriving Repr
 
 structure StepResult where
@@ -219,6 +221,7 @@ structure StepResult where
 
 def stepG (fixed : Bool) (w : World) : WCmd → StepResult
   | .rmCache u s f => ⟨.ok, false, [], Spec.empty, [], [], { w with caches := rmCache w.caches u s f }⟩
+  | .clearCache u => ⟨.ok, false, [], Spec.empty, [], [], { w with caches := w.caches.filter fun x => x.user != u }⟩
   | .run u c crash =>
     let (m, fl, w1) := load w u c.self
     let (out, p) := run w.nst c ⟨w1.db, m, w1.dirs, [], w1.extras⟩
